@@ -39,6 +39,9 @@ impl EventGen for ReuseElement {
             .inspect_err(|_| {
                 context.pop_element();
             })?;
+        // the instance is an element like any written by hand, and gets the defaults
+        // in force where it is instantiated
+        context.apply_defaults(&mut instance_element);
         // evaluate before splitting compound attributes, as for any other element:
         // an expression such as wh="$s {{$s * 2}}" contains spaces.
         instance_element.eval_attributes(context).inspect_err(|_| {
